@@ -702,6 +702,10 @@ pub enum Edit {
     /// append a synthetic file event to the file log
     FileEvent { kind: u8, n: u8 },
     CompactFolder { folder: u16 },
+    /// move a secret to another folder (delete in one folder log, create in the other)
+    MoveSecret { sec: u16, folder: u16 },
+    /// change a folder's password: rewrites the folder log and updates the identity log
+    ChangeFolderPassword { folder: u16, word: String },
 }
 
 impl Edit {
@@ -713,7 +717,8 @@ impl Edit {
             Edit::RenameAccount { .. } => "account",
             Edit::TrustDevice { .. } | Edit::RevokeDevice { .. } => "device",
             Edit::FileEvent { .. } => "files",
-            Edit::CompactFolder { .. } => "rewrite",
+            Edit::CompactFolder { .. } | Edit::ChangeFolderPassword { .. } => "rewrite",
+            Edit::MoveSecret { .. } => "folder",
         }
     }
 }
@@ -880,6 +885,20 @@ async fn apply_edit_inner(w: &mut SyncWorld, d: usize, e: &Edit) -> Result<bool,
             let fid = list[pick(*folder, list.len())].0;
             a.compact_folder(&fid).await.map_err(hf("edit/compact-folder", "compact_folder"))?;
         }
+        Edit::MoveSecret { sec, folder } => {
+            if flat.is_empty() || list.len() < 2 {
+                return Ok(false);
+            }
+            let (from, sid) = flat[pick(*sec, flat.len())];
+            let others: Vec<VaultId> = list.iter().map(|(f, _)| *f).filter(|f| *f != from).collect();
+            let to = others[pick(*folder, others.len())];
+            a.move_secret(&sid, &from, &to, Default::default()).await.map_err(hf("edit/move-secret", "move_secret"))?;
+        }
+        Edit::ChangeFolderPassword { folder, word } => {
+            let fid = list[pick(*folder, list.len())].0;
+            let key = sos_core::crypto::AccessKey::Password(SecretString::new(format!("folder-pw-{word}-{word}-{word}").into()));
+            a.change_folder_password(&fid, key).await.map_err(hf("edit/change-folder-password", "change_folder_password"))?;
+        }
     }
     Ok(true)
 }
@@ -963,6 +982,14 @@ pub async fn device_snapshot(account: &LocalAccount) -> Result<Value, Failure> {
             sos_vault::SecretAccess::vault(&*ap).clone()
         };
         let d = decrypt_vault(&vault, &key).await.map_err(|e| Failure::new("sync/served-folder-undecryptable", format!("folder {} ({}): {e}", f.name(), f.id())))?;
+        // "serves": the same secrets must be readable through the account API, which uses the
+        // key held by the folder's access point
+        let ids: Vec<SecretId> = vault.keys().copied().collect();
+        for id in ids {
+            account.read_secret(&id, Some(f.id())).await.map_err(|e| {
+                Failure::new("sync/served-secret-unreadable", format!("folder {} ({}): read_secret({id}) through the account fails although the folder decrypts with its password: {e}", f.name(), f.id()))
+            })?;
+        }
         out.insert(f.id().to_string(), d);
     }
     Ok(json!(out))
